@@ -24,10 +24,10 @@ pub fn sliding(v: u64, n: u64) -> String {
     (v..v + n).map(block).collect()
 }
 
-/// ~70 KB text; versions differ in one line near the start, one in the middle and a growing tail
+/// ~67 KB text (> 0x10000, the copy-size edge of delta instructions); versions differ in one line near the start, one in the middle and a growing tail
 pub fn big(v: u64) -> String {
     let mut s = String::with_capacity(80_000);
-    for i in 0..1100u64 {
+    for i in 0..1020u64 {
         if i == 3 || i == 600 {
             s.push_str(&format!("line {i} edited in version {v} ........................................\n"));
         } else {
